@@ -15,7 +15,7 @@
 #define ES_MAXAU    24
 
 /* ---- RBSP bit writer ---- */
-struct rb { uint8_t b[1024]; size_t bits; };
+struct rb { uint8_t b[4096]; size_t bits; };
 static void rb_init(struct rb *w) { memset(w, 0, sizeof(*w)); }
 static void rb_u(struct rb *w, int n, uint32_t v)
 {
@@ -61,6 +61,7 @@ struct nalrec {
     size_t start, end;      /* canonical span: zero_byte? + start code prefix + NAL + trailing zeros */
     bool vcl;
     int id, ref_id;         /* parameter sets: own id, referenced id */
+    int chroma, depth, subl; /* SPS: chroma_format_idc, bit_depth_minus8; H.265 VPS / SPS: max_sub_layers_minus1 */
     struct pic pic;         /* slices */
 };
 
@@ -78,7 +79,15 @@ struct es {
     struct aurec au[ES_MAXAU];
     int nau;
     bool overflow;
+    /* which optional SPS syntax the reference encoder wrote (class statistics) */
+    bool has_vui, has_hrd, has_scaling, has_timing;
 };
+
+/* Optional SPS syntax (VUI with timing and HRD parameters, scaling lists): 0 = none, as before. The choices
+ * of SPS number n are drawn from a generator seeded with (g_ext, n), so they use no tape octets. */
+static uint8_t g_ext;
+static uint32_t ext_seed(int ordinal) { return g_ext ? ((uint32_t)g_ext * 0x9E3779B1u) ^ ((uint32_t)(ordinal + 1) * 0x85EBCA6Bu) : 0; }
+static uint32_t ext_rnd(uint32_t *s) { *s = *s * 1664525u + 1013904223u; return *s >> 8; }
 
 /* appends one NAL unit: sc = 3 or 4 start code octets, hdr/nhdr = NAL header, the RBSP with
  * emulation prevention, tz trailing zero octets */
@@ -134,6 +143,164 @@ static int es_scan(const uint8_t *p, size_t n, size_t *start, size_t *hdr, int m
         }
     }
     return c;
+}
+
+/* removes emulation prevention octets (7.4.1: 00 00 03 -> 00 00); returns the RBSP length written (at most max) */
+static size_t es_unescape(const uint8_t *p, size_t n, uint8_t *out, size_t max)
+{
+    size_t l = 0; int zeros = 0;
+    for (size_t i = 0; i < n && l < max; i++) {
+        if (zeros >= 2 && p[i] == 3) { zeros = 0; continue; }
+        out[l++] = p[i];
+        zeros = p[i] == 0 ? zeros + 1 : 0;
+    }
+    return l;
+}
+
+/* ---- parameter sets out of band (global headers of the flow definition): reference writers and parsers,
+ * from ITU-T H.264 / H.265 annex B and ISO/IEC 14496-15 5.3.3.1 (AVCDecoderConfigurationRecord) and 8.3.3.1
+ * (HEVCDecoderConfigurationRecord); nothing here uses the stand-in bitstream headers ---- */
+#define GH_MAX      20000
+#define GH_MAXNAL   48
+struct ghnal { int type; const uint8_t *p; size_t len; };
+struct ghinfo {                 /* what a configuration record says besides the parameter sets */
+    int version, length_size;
+    uint8_t prof[12];           /* avcC: profile, compatibility, level; hvcC: the 12 general profile / tier / level octets */
+    int chroma, depth_luma, depth_chroma, nlayers;
+    bool reserved_ok;
+};
+
+static size_t gh_write_annexb(uint8_t *out, size_t cap, const struct ghnal *n, int nn, bool sc3)
+{
+    size_t l = 0;
+    for (int k = 0; k < nn; k++) {
+        if (l + 4 + n[k].len > cap) return 0;
+        if (!sc3) out[l++] = 0;
+        out[l++] = 0; out[l++] = 0; out[l++] = 1;
+        memcpy(out + l, n[k].p, n[k].len); l += n[k].len;
+    }
+    return l;
+}
+
+/* avcC; sps / pps in the order given; ext: the four trailing octets that profiles 100, 110, 122, 144 carry */
+static size_t gh_write_avcc(uint8_t *out, size_t cap, const struct ghnal *n, int nn, int length_size, bool ext, int chroma, int depth)
+{
+    size_t l = 0; int nsps = 0, npps = 0;
+    const struct ghnal *first = NULL;
+    for (int k = 0; k < nn; k++) { if (n[k].type == 7) { nsps++; if (!first) first = &n[k]; } else if (n[k].type == 8) npps++; }
+    if (nsps > 31 || npps > 255 || cap < 16) return 0;
+    out[l++] = 1;
+    out[l++] = first && first->len > 1 ? first->p[1] : 0;
+    out[l++] = first && first->len > 2 ? first->p[2] : 0;
+    out[l++] = first && first->len > 3 ? first->p[3] : 0;
+    out[l++] = 0xfc | (length_size - 1);
+    out[l++] = 0xe0 | nsps;
+    for (int k = 0; k < nn; k++) if (n[k].type == 7) {
+        if (n[k].len > 0xffff || l + 2 + n[k].len + 8 > cap) return 0;
+        out[l++] = n[k].len >> 8; out[l++] = n[k].len & 0xff; memcpy(out + l, n[k].p, n[k].len); l += n[k].len; }
+    out[l++] = npps;
+    for (int k = 0; k < nn; k++) if (n[k].type == 8) {
+        if (n[k].len > 0xffff || l + 2 + n[k].len + 8 > cap) return 0;
+        out[l++] = n[k].len >> 8; out[l++] = n[k].len & 0xff; memcpy(out + l, n[k].p, n[k].len); l += n[k].len; }
+    if (ext) { out[l++] = 0xfc | (chroma & 3); out[l++] = 0xf8 | (depth & 7); out[l++] = 0xf8 | (depth & 7); out[l++] = 0; }
+    return l;
+}
+
+static bool gh_parse_avcc(const uint8_t *h, size_t len, struct ghnal *n, int *nn, int max, struct ghinfo *inf)
+{
+    memset(inf, 0, sizeof(*inf)); *nn = 0;
+    if (len < 7) return false;
+    inf->version = h[0]; inf->prof[0] = h[1]; inf->prof[1] = h[2]; inf->prof[2] = h[3];
+    inf->length_size = (h[4] & 3) + 1;
+    inf->reserved_ok = (h[4] & 0xfc) == 0xfc && (h[5] & 0xe0) == 0xe0;
+    size_t l = 6;
+    for (int i = 0, c = h[5] & 0x1f; i < c; i++) {
+        if (l + 2 > len) return false;
+        size_t sz = (size_t)h[l] << 8 | h[l + 1]; l += 2;
+        if (l + sz > len || *nn >= max) return false;
+        n[*nn].type = 7; n[*nn].p = h + l; n[*nn].len = sz; (*nn)++; l += sz;
+    }
+    if (l + 1 > len) return false;
+    int c = h[l++];
+    for (int i = 0; i < c; i++) {
+        if (l + 2 > len) return false;
+        size_t sz = (size_t)h[l] << 8 | h[l + 1]; l += 2;
+        if (l + sz > len || *nn >= max) return false;
+        n[*nn].type = 8; n[*nn].p = h + l; n[*nn].len = sz; (*nn)++; l += sz;
+    }
+    return l == len || l + 4 <= len;    /* optionally followed by the high-profile fields */
+}
+
+/* hvcC: one array per NAL unit type present, in the order VPS, SPS, PPS */
+static size_t gh_write_hvcc(uint8_t *out, size_t cap, const struct ghnal *n, int nn, int length_size, const uint8_t ptl[12],
+                            int chroma, int depth, int nlayers)
+{
+    if (cap < 32) return 0;
+    size_t l = 0;
+    out[l++] = 1;
+    memcpy(out + l, ptl, 12); l += 12;
+    out[l++] = 0xf0; out[l++] = 0x00;           /* reserved '1111' + min_spatial_segmentation_idc */
+    out[l++] = 0xfc;                            /* reserved + parallelismType */
+    out[l++] = 0xfc | (chroma & 3);
+    out[l++] = 0xf8 | (depth & 7);
+    out[l++] = 0xf8 | (depth & 7);
+    out[l++] = 0; out[l++] = 0;                 /* avgFrameRate */
+    out[l++] = (0 << 6) | ((nlayers & 7) << 3) | (1 << 2) | (length_size - 1);
+    size_t narr_at = l++; int narr = 0;
+    static const int order[3] = { 32, 33, 34 };
+    for (int a = 0; a < 3; a++) {
+        int c = 0;
+        for (int k = 0; k < nn; k++) if (n[k].type == order[a]) c++;
+        if (!c) continue;
+        if (l + 3 > cap) return 0;
+        out[l++] = 0x80 | order[a]; out[l++] = c >> 8; out[l++] = c & 0xff;
+        for (int k = 0; k < nn; k++) if (n[k].type == order[a]) {
+            if (n[k].len > 0xffff || l + 2 + n[k].len > cap) return 0;
+            out[l++] = n[k].len >> 8; out[l++] = n[k].len & 0xff; memcpy(out + l, n[k].p, n[k].len); l += n[k].len; }
+        narr++;
+    }
+    out[narr_at] = narr;
+    return l;
+}
+
+static bool gh_parse_hvcc(const uint8_t *h, size_t len, struct ghnal *n, int *nn, int max, struct ghinfo *inf)
+{
+    memset(inf, 0, sizeof(*inf)); *nn = 0;
+    if (len < 23) return false;
+    inf->version = h[0];
+    memcpy(inf->prof, h + 1, 12);
+    inf->reserved_ok = (h[13] & 0xf0) == 0xf0 && (h[15] & 0xfc) == 0xfc && (h[16] & 0xfc) == 0xfc && (h[17] & 0xf8) == 0xf8 && (h[18] & 0xf8) == 0xf8;
+    inf->chroma = h[16] & 3; inf->depth_luma = h[17] & 7; inf->depth_chroma = h[18] & 7;
+    inf->nlayers = (h[21] >> 3) & 7; inf->length_size = (h[21] & 3) + 1;
+    size_t l = 23;
+    for (int a = 0, na = h[22]; a < na; a++) {
+        if (l + 3 > len) return false;
+        int type = h[l] & 0x3f, c = h[l + 1] << 8 | h[l + 2]; l += 3;
+        for (int i = 0; i < c; i++) {
+            if (l + 2 > len) return false;
+            size_t sz = (size_t)h[l] << 8 | h[l + 1]; l += 2;
+            if (l + sz > len || *nn >= max) return false;
+            n[*nn].type = type; n[*nn].p = h + l; n[*nn].len = sz; (*nn)++; l += sz;
+        }
+    }
+    return l == len;
+}
+
+/* Annex B global headers: every NAL unit behind a start code, from the first octet on */
+static bool gh_parse_annexb(const uint8_t *h, size_t len, bool h265, struct ghnal *n, int *nn, int max)
+{
+    static size_t st[GH_MAXNAL + 1], hd[GH_MAXNAL + 1];
+    *nn = 0;
+    int c = es_scan(h, len, st, hd, GH_MAXNAL + 1);
+    if (c == 0 || c > max || st[0] != 0) return false;
+    for (int k = 0; k < c; k++) {
+        size_t e = k + 1 < c ? st[k + 1] : len;
+        if (hd[k] >= e) return false;
+        n[k].type = h265 ? (h[hd[k]] >> 1) & 0x3f : h[hd[k]] & 0x1f;
+        n[k].p = h + hd[k]; n[k].len = e - hd[k];
+    }
+    *nn = c;
+    return true;
 }
 
 #endif
